@@ -116,11 +116,35 @@ def miri_smoke(prop, cfg, n, seed):
     return bharness.miri(cfg, items)
 
 
+def kf_from(it):
+    """Known finding KF-from: `<*const _>::from(self)` (tag read of repr(int) enums) needs `From` from the prelude."""
+    tr = set(bharness.derived_traits(it))
+    ids = [i.rust() for a in it.attrs if a.kind == 'repr' and a.repr_[0] == 'idents' for i in a.repr_[1]]
+    return bool(tr & {'PartialOrd', 'Ord'}) and any(i != 'C' for i in ids)
+
+
+def nip_run(cfg, items):
+    """The same items inside a `#[no_implicit_prelude]` module (second hostile scope of C14)."""
+    its = [(n, it) for n, it in items if not kf_from(it) and not getattr(it, 'expect_error', None)]
+    rep = bharness.run_b(cfg, its, hostile='nip')
+    for f in rep['failures']:
+        f['scope'] = '#[no_implicit_prelude] module'
+    for ce in rep['compile_errors'].values():
+        ce['source'] = '#[no_implicit_prelude] mod { ' + ce['source'] + ' }'
+    return rep
+
+
 def smoke(prop, cfg, limit=60, seed=20260929):
     """B on a sample of the property's pool plus random compile-ready items. Returns (report, relevant failures)."""
     items = pool(prop, limit, b_config(prop, cfg)) + ready_items(prop, b_config(prop, cfg), max(20, limit // 2), seed)
     rep = bharness.run_b(b_config(prop, cfg), items, hostile=(prop == 'C14'))
-    return rep, filter_failures(prop, rep), rep['model_failures']
+    fails = filter_failures(prop, rep)
+    if prop == 'C14':
+        rep2 = nip_run(b_config(prop, cfg), items)
+        rep['queries'] += rep2['queries']
+        rep['no_implicit_prelude'] = dict(items=rep2['items'], queries=rep2['queries'])
+        fails += filter_failures(prop, rep2)
+    return rep, fails, rep['model_failures']
 
 
 def directed(prop, cfg, notes, n=6000, cap=60):
@@ -189,6 +213,8 @@ def search(prop, disagreements, notes):
             if idx in loose:
                 del rep['compile_errors'][idx]
         fails = filter_failures(prop, rep)
+        if prop == 'C14' and not fails:
+            fails = filter_failures(prop, nip_run(cfg, items))
         notes.append('failing-input search: %d items, %d queries in %s, %d relevant failures' %
                      (rep['items'], rep['queries'], cfg, len(fails)))
     if not fails and engine.PROPS[prop].get('diagnostics'):
